@@ -35,6 +35,15 @@ def run_property(pid, tier, seed, only_bounded=None, write=True, quiet=False):
     assumptions = list(spec.get('assumptions', []))
     trusted = list(spec.get('trusted_base', []))
 
+    # ---- tier B is started first, in its own process, and collected after the deductive tiers
+    bjob = None
+    if spec.get('bounded'):
+        import subprocess, tempfile
+        budget = spec.get('bounded_budget', {}).get(tier, 40 if tier == 'quick' else 420)
+        bout = tempfile.NamedTemporaryFile(suffix='.json', delete=False).name
+        bjob = (subprocess.Popen([sys.executable, '-m', 'vlib.bounded_job', spec['bounded'], pid, tier, str(seed), str(budget),
+                                  json.dumps(only_bounded), bout], cwd=ROOT), bout)
+
     # ---- tier P: obligations generated from the current source of /repo
     if spec.get('pyvc'):
         from pyvc import driver
@@ -61,21 +70,23 @@ def run_property(pid, tier, seed, only_bounded=None, write=True, quiet=False):
     sha_now = dict((f['function'], f.get('source_sha1')) for f in functions)
 
     # ---- tier B: bounded stand-ins (run-time contracts on the real functions)
-    if spec.get('bounded'):
-        from . import bounded
-        budget = spec.get('bounded_budget', {}).get(tier, 40 if tier == 'quick' else 420)
+    if bjob is not None:
+        proc, bout = bjob
+        proc.wait()
         try:
-            items, bviol, berr = bounded.run_module(spec['bounded'], pid, tier, seed, budget, only=only_bounded)
-            bounded_items = items
-            errors += ['bounded ' + e for e in berr]
-            per = {}
-            for v in sorted(bviol, key=lambda v: len(str(v['input']))):         # smallest inputs first, two per clause
-                k = (v['item'], v['clause'])
-                per[k] = per.get(k, 0) + 1
-                if per[k] <= 2:
-                    violations.append(Violation(pid, 'B', v['item'], v['clause'], v['input'], v['detail']))
-        except Exception:
-            errors.append('bounded: ' + traceback.format_exc())
+            with open(bout) as f:
+                bres = json.load(f)
+            os.unlink(bout)
+        except Exception as e:
+            bres = dict(items=[], violations=[], errors=['no result from the bounded runner (exit %s): %s' % (proc.returncode, e)])
+        bounded_items = bres['items']
+        errors += ['bounded ' + e for e in bres['errors']]
+        per = {}
+        for v in sorted(bres['violations'], key=lambda v: len(str(v['input']))):         # smallest inputs first, two per clause
+            k = (v['item'], v['clause'])
+            per[k] = per.get(k, 0) + 1
+            if per[k] <= 2:
+                violations.append(Violation(pid, 'B', v['item'], v['clause'], v['input'], v['detail']))
 
     # ---- verdicts for failed obligations (DESIGN section 7, violation rule)
     for o in failed:
